@@ -115,6 +115,11 @@ claim("C10", "model_checking",
       "Proposal.tla specifies (1) the blend of a raw gradient with the identity under a Boolean mask, checked by TLC for all 512 masks and replayed exactly on the three deformation kinds (also with the mask re-assigned on a live operation), and (2) which predicates each of the ten operation kinds owes (norm / range, rigidity, centre of mass, centroid in cell, sum of parts, scalar times identity, symmetric, positive-definite, unit determinant, masked identity); thousands of real calls over step sizes 1e-3..10, cubic to triclinic cells, groups of 1..5 atoms with unequal (also user-set) masses and random masks are judged by TLC. 'As likely as its inverse' and uniform translation are tested on the distributions of d, rotation vectors (Kabsch) and log F.",
       "This is the property for which the family adds least: the real-valued clauses are decided by the numeric predicates (tolerances 1e-12 relative for norms, 1e-9 for geometry, 1e-10 for det) and the symmetry clause statistically (|z| <= 6); TLC decides the discrete mask semantics and the assignment of obligations to operations.", "5 C10")
 
+claim("C01", "model_checking",
+      "TLC: detailed balance of the specified Metropolis kernels against the analytic stationary laws on lattice instances (Ensemble.tla); statistical conformance of real drivers on solvable systems",
+      "Ensemble.tla runs three lattice chains with the trial/accept/reject structure of the engine and Accept.tla's rule (canonical ring with site energies; ideal gas on a log-volume lattice with the uniform-in-ln V proposal, which is where the exponent N+1 is forced; grand-canonical ideal gas with Poisson target) and TLC checks pi(s)K(s,t) = pi(t)K(t,s) for every transition in integer form, that a rejection keeps the state and that every move is reversible. The code's kernel equals the specified one factor by factor (C02 acceptance, C03/C05 restoration and bookkeeping, C04 energies, C10 proposal symmetry). End to end, real Canonical / HamiltonianCanonical / Isobaric / Isotension / GrandCanonical runs on harmonic wells, a rigid dipole in a field, ideal gases (also with temperature and chemical potential re-assigned mid-run) are sampled after every step and compared with the exact values (3N/2 kT, coth x - 1/x, (N+1)kT/P and its variance, Poisson mean / variance / histogram, uniform positions and orientations).",
+      "'Long simulations reproduce' is a limit over arbitrarily long histories: TLC decides detailed balance of the specification exactly on lattice instances; the end-to-end part is finite-sample agreement at |z| <= 6 (block-averaged errors, one doubled re-run before reporting), resolving biases above about 3% (quick) / 1% (thorough).", "5 C01")
+
 NOT_YET = "check not built yet in this round (planned in DESIGN.md section 5); will be claimed once its spec and conformance harness exist"
 
 
